@@ -62,6 +62,7 @@ type concState struct {
 	replicaC    *column.Collection
 	logFile     *SimRW
 	log         *commit.Log
+	logOrder    *orderedLog // (C13) the order in which the log took the commits, and what it answered
 	writersLeft int
 	applied     int
 	setupSnap   []byte
@@ -160,6 +161,7 @@ func runConc(cs *Case, or concOracles) (w *World) {
 		return w
 	}
 	w.tap.Commits = nil
+	w.tap.failAt, w.tap.failOnce = cs.Cfg.Params["stream_fail_at"], cs.Cfg.Params["stream_fail_once"] == 1
 
 	if or.replicas {
 		st.ch = make(commit.Channel, 1<<14)
@@ -179,8 +181,15 @@ func runConc(cs *Case, or concOracles) (w *World) {
 	}
 	if or.log && st.log == nil {
 		st.logFile = &SimRW{SimFile: NewSimFile()}
+		if k, n := cs.Cfg.Params["log_fault_call"], cs.Cfg.Params["log_fault_byte"]; k > 0 || n > 0 {
+			st.logFile.Plan = WritePlan{FailAtCall: k, FailAtByte: -1, Once: cs.Cfg.Params["log_fault_once"] == 1}
+			if n > 0 {
+				st.logFile.Plan.FailAtByte = n
+			}
+		}
 		st.log = commit.Open(st.logFile)
-		w.tap.Sinks = append(w.tap.Sinks, st.log)
+		st.logOrder = &orderedLog{lg: st.log}
+		w.tap.Sinks = append(w.tap.Sinks, st.logOrder)
 	}
 	w.tap.onAppend = func(tc *TapCommit, c commit.Commit) { w.onEmit(tc, c) }
 
